@@ -8,10 +8,12 @@ import (
 	"io"
 	"net"
 	"net/http"
+	"runtime"
 	"runtime/debug"
 	"sort"
 	"strings"
 	"sync"
+	"sync/atomic"
 
 	"github.com/jensneuse/abstractlogger"
 	"github.com/vektah/gqlparser/v2/ast"
@@ -119,8 +121,18 @@ func (g *rig) exec(query string) (res execResult) {
 	}()
 	res.Body = wr.String()
 	res.RPCs, res.RPCErrors = g.conn.take()
+	// Planning a fresh operation allocates 2-6 MB of short-lived memory. On a machine loaded
+	// far beyond its cores the concurrent collector is starved and the heap of a shard was
+	// seen to overshoot to several GB (fatal "out of memory" under the driver's address-space
+	// limit). A forced collection every few executions bounds the garbage between two
+	// collections; it costs about a millisecond with the ~25 MB live heap of the rigs.
+	if n := execCount.Add(1); n%96 == 0 {
+		runtime.GC()
+	}
 	return res
 }
+
+var execCount atomic.Int64
 
 var (
 	rigOnce  sync.Once
